@@ -37,15 +37,17 @@ theorem queries_pure : ∀ q ∈ queries, pure fns q = true := by decide +kernel
 /-- copy-producing operations of the property that must own their data -/
 def copyOps : List (String × String) :=
   [("align", "Clone"), ("seqbag", "CloneSeqBag"), ("align", "SubAlign"), ("align", "SelectSites"),
-   ("align", "Transpose"), ("align", "BuildBootstrap"), ("align", "Split"), ("seqbag", "Unalign"), ("align", "CodonAlign")]
+   ("align", "Transpose"), ("align", "BuildBootstrap"), ("align", "Split"), ("seqbag", "Unalign"), ("align", "CodonAlign"),
+   ("align", "RandSubAlign")]
 
-/-- **Clones, sub-alignments, site selections, transpositions and bootstraps hand only freshly allocated
-buffers to the new object.** -/
+/-- **Clones, sub-alignments (random ones included: `RandSubAlign` re-sliced the rows of its source in its
+consecutive mode until the repair 80ed920), site selections, transpositions and bootstraps hand only freshly
+allocated buffers to the new object.** -/
 theorem copies_own_data : ∀ c ∈ copyOps, ownsData fns c.1 c.2 = true := by decide +kernel
 
 /-- the operations documented as sharing (outside the property's list) are seen as sharing — the
 analysis does distinguish the two situations -/
-theorem sampling_shares : sharesData fns "seqbag" "sampleSeqBag" = true ∧ sharesData fns "align" "RandSubAlign" = true := by
+theorem sampling_shares : sharesData fns "seqbag" "sampleSeqBag" = true := by
   decide +kernel
 
 /-! ## ownership model -/
